@@ -24,7 +24,7 @@ BUDGET = {"quick": {"shards": 4, "examples": 300}, "thorough": {"shards": 16, "e
 
 
 def strategy(tier):
-    p = G.Profile(max_items=8 if tier == "quick" else 14, depth=3 if tier == "quick" else 4, impl_doc=True, nest_all=True)
+    p = G.Profile(max_items=8 if tier == "quick" else 14, depth=3 if tier == "quick" else 4, impl_doc=True, nest_all=True, dups=True)
     return st.fixed_dictionaries({"module": G.module(p), "layout": G.layout_choices()})
 
 
